@@ -23,6 +23,12 @@ pub struct PeerSpec {
     pub via_have: u8,
     pub unchoke_delay_s: u8,
     pub outgoing: bool,
+    /// the peer is itself a downloader: it declares interest in the client
+    #[serde(default)]
+    pub interested: bool,
+    /// answers to requests the client cancels are already in flight and arrive anyway
+    #[serde(default)]
+    pub late_blocks: bool,
 }
 
 #[derive(Clone, Debug, Serialize, Deserialize)]
@@ -83,8 +89,8 @@ fn geo_strategy(tier: Tier) -> BoxedStrategy<Geometry> {
 }
 
 fn strategy(tier: Tier) -> BoxedStrategy<Case> {
-    let peer = (any::<u64>(), prop::bool::weighted(0.5), prop_oneof![Just(0u8), any::<u8>()], 0u8..60, any::<bool>())
-        .prop_map(|(pieces_seed, essential, via_have, unchoke_delay_s, outgoing)| PeerSpec { pieces_seed, essential, via_have, unchoke_delay_s, outgoing });
+    let peer = (any::<u64>(), prop::bool::weighted(0.5), prop_oneof![Just(0u8), any::<u8>()], 0u8..60, any::<bool>(), prop::bool::weighted(0.4), prop::bool::weighted(0.5))
+        .prop_map(|(pieces_seed, essential, via_have, unchoke_delay_s, outgoing, interested, late_blocks)| PeerSpec { pieces_seed, essential, via_have, unchoke_delay_s, outgoing, interested, late_blocks });
     let act = prop_oneof![
         8 => (1u8..4).prop_map(Act::Serve),
         1 => Just(Act::Choke),
@@ -219,6 +225,11 @@ pub fn check(c: &Case) -> Outcome {
                 ctx.send(w, net, conn, &bf).await;
                 net.peers[p].advertised = bits;
                 net.peers[p].sent_bitfield = true;
+                if h.spec.interested {
+                    let b = wire::encode(&RFrame::Interested);
+                    ctx.send(w, net, conn, &b).await;
+                    net.peers[p].interested_in_client = true;
+                }
                 h.unchoke_at = Some(w.now() + Duration::from_secs(h.spec.unchoke_delay_s as u64));
             }
 
@@ -238,7 +249,12 @@ pub fn check(c: &Case) -> Outcome {
                         peer.view.outstanding.clear();
                         break;
                     }
-                    let (i, b, l) = match peer.view.outstanding.pop_front() {
+                    let next = match peer.view.outstanding.pop_front() {
+                        Some(r) => Some(r),
+                        None if h.spec.late_blocks => peer.view.cancelled_pending.pop_front(),
+                        None => None,
+                    };
+                    let (i, b, l) = match next {
                         Some(r) => r,
                         None => break,
                     };
@@ -413,6 +429,9 @@ pub fn check(c: &Case) -> Outcome {
                     }
                 }
             }
+            if c.peers.iter().any(|p| p.interested) {
+                classes.push("peer-interested-in-client");
+            }
             let two_peers = c.peers.len() >= 2;
             if two_peers {
                 classes.push(">=2-peers");
@@ -481,14 +500,14 @@ pub fn swarm_sub() -> Sub {
         cases: |t| t.pick(8_000, 100_000),
         run: |ctx| run_proptest(ctx, "swarm", strategy(ctx.tier), check),
         replay: |v| replay_case::<Case>(v, check),
-        min_class: &[(">=2-peers", 0.3747), ("non-essential-peer-disconnected", 0.0767), ("stream-cut-inside-a-message", 0.228), ("cut-inside-length-prefix", 0.2), ("multi-file", 0.258), ("piece-announced-by-have", 0.15), ("unknown-id-message", 0.15)],
+        min_class: &[(">=2-peers", 0.3747), ("non-essential-peer-disconnected", 0.0767), ("stream-cut-inside-a-message", 0.228), ("cut-inside-length-prefix", 0.2), ("multi-file", 0.258), ("piece-announced-by-have", 0.15), ("unknown-id-message", 0.15), ("peer-interested-in-client", 0.2)],
     }
 }
 
 pub fn def() -> PropDef {
     PropDef {
         id: "C02",
-        rule: "sub swarm: a consistent torrent geometry (piece length from {1,3,64,1000,16384,16385,20000 (+16383,32768,40000 thorough)}, 1-5 files incl. zero-length and sub-piece files, single/multi-file form) and 1-4 honest peers whose piece sets cover everything on the essential ones; honest peers answer every request with the right bytes, unchoke 0-59 virtual seconds after joining or after having choked, announce pieces by bitfield or partly by later Haves, send keep-alives and unknown-id messages; a generated script of up to 50 moves (serve 1-3 blocks, choke, unchoke, keep-alive, unknown message, have, disconnect of a non-essential peer, idle) picks who moves next; every outgoing message may be cut at generated points (also inside the length prefix) with or without a barrier between segments; afterwards all surviving honest peers serve until done, and an essential peer the client dropped is handed out again. Oracle: all pieces Have within 60 virtual minutes, no task or manager panic, no honest connection ended by the client with an error, and the real Extractor reproduces every file byte for byte. Non-trivial = >= 2 peers and (a non-essential disconnect or a stream cut inside a message); distinct by hash of the case.",
+        rule: "sub swarm: a consistent torrent geometry (piece length from {1,3,64,1000,16384,16385,20000 (+16383,32768,40000 thorough)}, 1-5 files incl. zero-length and sub-piece files, single/multi-file form) and 1-4 honest peers whose piece sets cover everything on the essential ones; honest peers (some of them downloaders that declare interest in the client, some whose answers to cancelled requests are already in flight) answer every request with the right bytes, unchoke 0-59 virtual seconds after joining or after having choked, announce pieces by bitfield or partly by later Haves, send keep-alives and unknown-id messages; a generated script of up to 50 moves (serve 1-3 blocks, choke, unchoke, keep-alive, unknown message, have, disconnect of a non-essential peer, idle) picks who moves next; every outgoing message may be cut at generated points (also inside the length prefix) with or without a barrier between segments; afterwards all surviving honest peers serve until done, and an essential peer the client dropped is handed out again. Oracle: all pieces Have within 60 virtual minutes, no task or manager panic, no honest connection ended by the client with an error, and the real Extractor reproduces every file byte for byte. Non-trivial = >= 2 peers and (a non-essential disconnect or a stream cut inside a message); distinct by hash of the case.",
         assumptions: &[
             "liveness is decided up to a horizon of 60 virtual minutes",
             "a dropped essential peer is reachable again (the harness reconnects it, as a tracker would hand it out again)",
